@@ -138,6 +138,8 @@ func main() {
 		modeC06()
 	case "c07":
 		modeC07()
+	case "c15":
+		modeC15()
 	default:
 		res.InfraError("unknown mode %s", mode)
 	}
@@ -166,6 +168,19 @@ func replayMode() {
 		}
 		res.Eval()
 		checkC07(a, x)
+		return
+	}
+	if rp.Mode == "c15" {
+		var sc Script
+		json.Unmarshal([]byte(rp.Extra), &sc)
+		x, err := vrt.Replay(c15Cfg(), rp.Choices, func() { runScript(sc) })
+		if err != nil {
+			res.InfraError("%v", err)
+			return
+		}
+		res.Eval()
+		fmt.Fprintf(os.Stderr, "replay c15 %s: outcome=%s %s returned=%v err=%v\n", sc, x.Outcome, x.Detail, c15cur.returned, c15cur.err)
+		checkC15(sc, x)
 		return
 	}
 	p, err := prepare(rp.Case)
